@@ -231,7 +231,10 @@ def treeOp (args : List String) : String :=
   -- listing) and the raw check of every parsed entry's chain (`reopenCheck`)
   let ro :=
     if withImg && argNatD args "reopen" == 1 then
-      let D := image X g s
+      -- `image X g s`, unfolded so that the serialisations are computed once, not per byte read
+      let rws := rootWrs X g s
+      let jws := jobWrs g.f.io (rootJobs X g s)
+      let D : Dev := applyWrs (applyWrs s.d rws) jws
       let t := reopen g fuel 8 s.m D (s.chain.headD 0)
       let l := ";".intercalate (specListing "" t)
       s!"\trtree={if verbose then l else toString (digestStr l)}\trchk={if reopenCheck g fuel 8 s.m D (s.chain.headD 0) then 1 else 0}"
